@@ -53,10 +53,10 @@ func Simulate(c *core.Ctx, cfgText string, total, workers int, name string) ([]B
 		go func(w int) {
 			defer wg.Done()
 			outp := filepath.Join(c.Work, fmt.Sprintf("sim-%s-%d.csv", name, w))
-			res, err := tlc.Run(tlc.Opts{
+			res, err := tlc.Run(tlc.Opts{ // no retry: the export file is appended to
 				SpecDirs: []string{specDir(c)}, Module: "ConcSim", Config: "sim.cfg",
 				Files:   map[string]string{"sim.cfg": cfgText},
-				Workers: 1, Timeout: 20 * time.Minute, HeapMB: 2000, Scratch: c.Work,
+				Workers: 1, Timeout: 8 * time.Minute, HeapMB: 2000, Scratch: c.Work,
 				Env:   map[string]string{"VERIF_OUT": outp},
 				Extra: []string{"-simulate", fmt.Sprintf("num=%d", per), "-depth", "400", "-seed", fmt.Sprint(c.Seed*1000 + int64(w) + 1)},
 			})
